@@ -84,7 +84,13 @@ FoldIsRef == Mode = "lines" => /\ Parsed = RefDI
 NoOps == Mode = "lines" => FromBytes(JoinTerm(SelectSeq(lines, LAMBDA l : ~Ignorable(l)), <<NL>>)) = Parsed
 
 DIJson(x) == [rcsid |-> x.rcsid, dist |-> x.dist, patch |-> x.patch]
+\* names looked up in every parsed text: recorded ones, the last component of a recorded one on
+\* its own, a recorded one behind a further directory, in the other table
+Probes == <<<<102>>, <<115, 117, 98, 47, 102>>, <<118, 50, 47, 102>>, Codes("patch-a"), Codes("sub/patch-a"), Codes("patch-c"),
+            Codes("sub/patch-c"), Codes("emul-x-patch-b"), <<103>>, Codes("patch-")>>
+TF(b) == IF b THEN "T" ELSE "F"
+Hits(x) == [i \in 1..Len(Probes) |-> <<TF(IndexOf(x.dist, Probes[i]) # 0), TF(IndexOf(x.patch, Probes[i]) # 0)>>]
 Emit == Judged(Text) =>
-          PrintT(<<"CASE", ToJson([op |-> "distparse", in |-> [bytes |-> Text],
-                                   out |-> [d |-> DIJson(Parsed), out |-> AsBytes(Parsed)]])>>)
+          PrintT(<<"CASE", ToJson([op |-> "distparse", in |-> [bytes |-> Text, probes |-> Probes],
+                                   out |-> [d |-> DIJson(Parsed), out |-> AsBytes(Parsed), hits |-> Hits(Parsed)]])>>)
 =============================================================================
